@@ -274,6 +274,55 @@ def gen_revote_scenario(rng, offset=None):
     return {"ver": ver, "bpcount": 3, "start": 1, "accounts": accounts, "ops": ops}
 
 
+def gen_param_inblock_scenario(rng, lower=None):
+    """directed: a STAKINGMIN vote that reaches the 2/3 threshold, followed IN THE SAME BLOCK by
+    stakes and partial unstakes of unlocked accounts whose resulting amounts lie between the old
+    and the new minimum (and just outside): every accept / refuse decision must use the value in
+    force for the CURRENT block, not the one staged for the next; then the same probes again
+    after the boundary (now the new value is in force) and after a restart."""
+    lower = (rng.random() < 0.5) if lower is None else lower
+    new = rng.choice([S // 2, S // 4, 10 ** 18]) if lower else rng.choice([3 * S, 2 * S, 5 * S])
+    lo, hi = min(S, new), max(S, new)
+    mid = (lo + hi) // 2
+    accounts = [{"addr": addr(i).hex(), "bal": str(80 * S)} for i in range(5)]
+    ops = [{"op": "stake", "who": 0, "amt": str(30 * S)}, {"op": "stake", "who": 1, "amt": str(6 * S)},
+           {"op": "stake", "who": 2, "amt": str(6 * S)}, {"op": "block", "no": 2}]
+    no = 2 + DELAY
+    ops.append({"op": "block", "no": no})
+
+    def probes():
+        out = []
+        for who, rest in ((1, mid), (2, rng.choice([lo, lo - 1, hi, hi - 1, hi + 1]))):
+            out.append({"op": "unstake", "who": who, "amt": "REST%d" % rest})
+        out.append({"op": "stake", "who": 3, "amt": str(rng.choice([mid, lo, hi - 1]))})
+        out.append({"op": "stake", "who": 4, "amt": str(hi)})
+        rng.shuffle(out)
+        return out
+    ops.append({"op": "votedao", "who": 0, "id": "STAKINGMIN", "val": [str(new)]})
+    ops += probes()
+    no += 1
+    ops.append({"op": "block", "no": no})
+    if rng.random() < 0.5:
+        ops.append({"op": "reload"})
+    no += DELAY
+    ops.append({"op": "block", "no": no})
+    ops += probes()
+    ops.append({"op": "block", "no": no + 1})
+    # resolve "REST<n>": unstake so that <n> remains, from the amounts a literal reading predicts
+    stake = {1: 6 * S, 2: 6 * S}
+    cur_min = [S]
+    # the amounts are only targets: an op that gets refused simply leaves the stake as it was
+    for o in ops:
+        if o["op"] == "unstake" and str(o["amt"]).startswith("REST"):
+            rest = int(o["amt"][4:])
+            w = o["who"]
+            o["amt"] = str(max(stake[w] - rest, 1))
+            o["_rest"] = rest
+    for o in ops:
+        o.pop("_rest", None)
+    return {"ver": rng.choice([2, 3, 4]), "bpcount": 3, "start": 1, "accounts": accounts, "ops": ops}
+
+
 def exhaustive_family(length=3):
     """thorough tier: after a fixed prefix (two stakers who voted, lock periods over) every
     sequence of `length` operations over a 9-letter alphabet (partial/full unstakes that shrink
